@@ -25,6 +25,7 @@ MODULES = {
     'ir/ir_types.rs': ('rssl-ir', 'ir/src/ir_types.rs'),
     'ir/layout_checker.rs': ('rssl-ir', 'ir/src/layout_checker.rs'),
     'hlsl/ast_generate.rs': ('rssl-hlsl', 'hlsl/src/ast_generate.rs'),
+    'msl/pipeline.rs': ('rssl-msl', 'msl/src/generator/pipeline.rs'),
 }
 
 
